@@ -25,7 +25,9 @@ EXTENDS Naturals, FiniteSets, TLC
 
 CONSTANTS Types,    \* the atomic types / special values in use (subset of AllTypes)
           Uses1,    \* one-slot uses in use
-          Uses2     \* two-slot uses in use
+          Uses2,    \* two-slot uses in use
+          NumValues, \* numeric values for the formatting functions (subset of AllNumValues)
+          Pictures   \* picture strings, by name (subset of AllPictures)
 
 AllTypes == {"string", "normalizedString", "token", "language", "NMTOKEN", "Name", "NCName", "ID", "IDREF",
              "ENTITY", "anyURI", "boolean", "decimal", "integer", "nonPositiveInteger", "negativeInteger",
@@ -44,6 +46,16 @@ AllUses1 == {"map-key", "map-entry", "map-put", "map-get", "map-merge", "map-con
 AllUses2 == {"general-eq", "general-lt", "value-eq", "value-lt", "value-ne", "plus", "minus", "times", "div",
              "deep-equal2", "index-of2", "distinct-values2", "sort2", "min2", "two-keys", "map-merge2", "map-get2"}
 
+(* fn:format-number($value, $picture [, $decimal-format-name]): every numeric boundary value x one     *)
+(* picture per picture feature of F&O 3.1 4.7 (mandatory / optional digits, grouping, fraction, percent, *)
+(* per-mille, exponent (3.1), sub-pictures, prefix / suffix, a named decimal format, malformed).         *)
+AllNumValues == {"zero", "one", "minus-one", "decimal", "small", "large", "integer-huge", "double", "double-huge",
+                 "double-tiny", "INF", "minus-INF", "NaN", "minus-zero", "float-INF", "empty"}
+AllPictures == {"digit", "optional", "grouping", "fraction", "optional-fraction", "percent", "per-mille", "exponent",
+                "exponent-wide", "exponent-optional", "sub-pictures", "prefix-suffix", "named-format", "unknown-format",
+                "malformed-two-points", "malformed-empty", "only-passive"}
+ASSUME NumOK == NumValues \subseteq AllNumValues /\ Pictures \subseteq AllPictures
+
 ASSUME TypesOK == Types \subseteq AllTypes
 ASSUME UsesOK == Uses1 \subseteq AllUses1 /\ Uses2 \subseteq AllUses2
 
@@ -56,7 +68,10 @@ Use1(u, a) == use = "none" /\ use' = u /\ t1' = a /\ t2' = "-"
 
 Use2(u, a, b) == use = "none" /\ use' = u /\ t1' = a /\ t2' = b
 
-Next == \/ \E u \in Uses1, a \in Types : Use1(u, a)
+Format(v, p) == use = "none" /\ use' = "format-number" /\ t1' = v /\ t2' = p
+
+Next == \/ \E v \in NumValues, p \in Pictures : Format(v, p)
+        \/ \E u \in Uses1, a \in Types : Use1(u, a)
         \/ \E u \in Uses2, a \in Types, b \in Types : Use2(u, a, b)
 
 Spec == Init /\ [][Next]_vars
@@ -64,7 +79,9 @@ Spec == Init /\ [][Next]_vars
 TypeOK == \/ use = "none" /\ t1 = "-" /\ t2 = "-"
           \/ use \in Uses1 /\ t1 \in Types /\ t2 = "-"
           \/ use \in Uses2 /\ t1 \in Types /\ t2 \in Types
+          \/ use = "format-number" /\ t1 \in NumValues /\ t2 \in Pictures
 
 PlanSize == 1 + Cardinality(Uses1) * Cardinality(Types) + Cardinality(Uses2) * Cardinality(Types) * Cardinality(Types)
+              + Cardinality(NumValues) * Cardinality(Pictures)
 ASSUME PrintPlan == PrintT(<<"pool_plan_size", PlanSize>>)
 =============================================================================
